@@ -214,9 +214,14 @@ func genProfileExts(t *rapid.T, label string, crt []core.Extension, kinds []stri
 			p = crt[rapid.IntRange(0, len(crt)-1).Draw(t, l+"-copy")]
 		case c == 1 && len(crt) > 0: // same kind, different definition
 			src := crt[rapid.IntRange(0, len(crt)-1).Draw(t, l+"-same")]
-			p = genExtension(t, l+"-var", []string{src.Kind}, 64)
-			if src.Kind == core.KCUSTOM {
-				p.OID = src.OID
+			if rapid.Bool().Draw(t, l+"-near") {
+				// near miss: one minimal edit away from the certificate's extension
+				p, _ = mutateExt(t, src, l+"-mut")
+			} else {
+				p = genExtension(t, l+"-var", []string{src.Kind}, 64)
+				if src.Kind == core.KCUSTOM {
+					p.OID = src.OID
+				}
 			}
 		case c == 2 && len(crt) > 0 && allowUndefined: // content-less entry of a kind the certificate has
 			src := crt[rapid.IntRange(0, len(crt)-1).Draw(t, l+"-undef")]
